@@ -332,7 +332,8 @@ def translate_picked(fn, k):
             result = tr.expr(st.value)
         elif kind == "guard_of":
             st = _unique([n for n in ast.walk(fn) if isinstance(n, ast.If) and not n.orelse
-                          and any(ast.unparse(b) == what for b in n.body)], "if guarding `" + what + "`")
+                          and any((ast.unparse(b).startswith(what[:-1]) if what.endswith("*") else
+                                   ast.unparse(b) == what) for b in n.body)], "if guarding `" + what + "`")
             if k.get("sole_body", True) and len(st.body) != 1:
                 raise Untranslatable("the guarded block does more than `" + what + "`")
             result = tr.expr(st.test)
@@ -385,6 +386,16 @@ KERNELS += [
          quant="(st du : Z) (l : list Z)",
          call="Some (match minZ_opt l with None => st + du | Some cur => gen_k cur st du end)",
          model="minZ_opt ((st + du) :: l)", unfold="", cbn="minZ_opt", props=["C07", "C08"]),
+]
+
+
+KERNELS += [
+    dict(name="next_operation_guard", file="job_shop_lib/dispatching/_dispatcher.py", cls="Dispatcher",
+         fn="next_operation", params="(I : instance) (d : dstate) (j : nat)", args="I d j", rtype="bool",
+         pick=[("guard_of", "raise ValidationError*")],
+         leaves={"len(self.instance.jobs[job_id])": ("length (get_job I j)", "nat"),
+                 "self._job_next_operation_index[job_id]": ("nthN (jnext d) j", "nat")},
+         model="(length (get_job I j) <=? nthN (jnext d) j)%nat", unfold="", props=["C09", "C18", "C05"]),
 ]
 
 
@@ -480,6 +491,11 @@ PROG_TACTIC = """Ltac prog :=
           | |- context [match ?o with Some _ => _ | None => _ end] => destruct o eqn:?
           | |- context [if ?b then _ else _] => destruct b eqn:?
           end; cbn [core wcache filt objs subs mfree jnext jfree sched fst snd]);
+  try reflexivity; try congruence;
+  (* a program that ends in a call of another modelled method: `bind m (fun _ => ret tt)` against `m` *)
+  repeat (match goal with
+          | |- context [match ?m with pair _ _ => _ end] => destruct m as [? [[]|?]] eqn:?
+          end);
   try reflexivity; try congruence.
 """
 
@@ -673,6 +689,29 @@ PROGRAMS = [
                  "(fun _ => @K@)))", {})},
          model="schedule_add I x", unfold="schedule_add gen_check",
          props=["C01", "C09"]),
+    # the dispatcher part of SingleJobShopGraphEnv.step: look the operation up, resolve -1, dispatch - then only reads
+    dict(name="prog_env_step", file="job_shop_lib/reinforcement_learning/_single_job_shop_graph_env.py",
+         cls="SingleJobShopGraphEnv", fn="step", params="(I : instance) (j : nat) (m : Z)", args="I j m", leaves={},
+         calls={"job_id, machine_id = action": ("let v_machine_id := m in @K@", {"machine_id": "Z"}),
+                "operation = self.dispatcher.next_operation(job_id)":
+                (f"bind get (fun w => bind (if (length (get_job I j) <=? nthN (jnext {W}) j)%nat then raise EValidation "
+                 f"else ret tt) (fun _ => let p := nthN (jnext {W}) j in bind (of_opt (get_op I j p) EOther) "
+                 "(fun o => @K@)))", {}),
+                "if machine_id == -1:\n    machine_id = operation.machine_id":
+                ("bind (if v_machine_id =? -1 then resolve_machine o None else ret v_machine_id) "
+                 "(fun v_machine_id => @K@)", {"machine_id": "Z"}),
+                "self.dispatcher.dispatch(operation, machine_id)":
+                ("bind (dispatch o_update I (mkreq j p (Some v_machine_id))) (fun _ => @K@)", {}),
+                # what follows the dispatch only READS the dispatcher (no step of the model's world)
+                "obs = self.get_observation()": ("@K@", {}),
+                "reward = self.reward_function.last_reward": ("@K@", {}),
+                "done = self.dispatcher.schedule.is_complete()": ("@K@", {}),
+                "truncated = False": ("@K@", {}),
+                "info: dict[str, Any] = {'feature_names': self.composite_observer.column_names, "
+                "'available_operations': self.dispatcher.available_operations()}": ("@K@", {}),
+                "return (obs, reward, done, truncated, info)": ("@K@", {})},
+         model="env_step o_update I j m", unfold="env_step",
+         props=["C09", "C13", "C18"]),
     dict(name="prog_schedule_reset", file="job_shop_lib/_schedule.py", cls="Schedule", fn="reset",
          params="(I : instance)", args="I", leaves={},
          calls={"self.schedule = [[] for _ in range(self.instance.num_machines)]":
